@@ -5,14 +5,6 @@ pipestance looks like after any number of crash / restart / partial resets — t
 same as after an uninterrupted run (C05 `restart_completes_same`). -/
 namespace Martian.Sched
 
-/-- no failure event, and the chunk structure of a fork is not redefined while mrp
-re-attaches (the model keeps `nchunks` across `restart`; `Fork.restoreChunks`) -/
-def Ev.benign (s : State) (e : Ev) : Bool :=
-  !e.failing &&
-  match e with
-  | .mkchunks _ _ _ => !(s.phase == .loading && s.inc != 0)
-  | _ => true
-
 /-- the completion chain, on disk -/
 structure ChainInv (s : State) : Prop where
   c1 : ∀ n f, s.kind n ≠ .pipeline → (s.m ⟨n, f, .fork⟩).disk.has .complete = true →
